@@ -7,9 +7,9 @@ props=${@:-"C01 C02 C03 C04 C05 C06 C14 C15 C16 C18 C20"}
 out=$(mktemp -d /tmp/simdassh_ms_XXXX)
 for s in $seeds; do for p in $props; do
   SIMDASSH_EVIDENCE_DIR=$out/ev SIMDASSH_REPLAY_DIR=$out/rp_$s VERIF_SEED=$s \
-    timeout 2400 ./check $p --tier quick > $out/$p.$s.log 2>&1
+    timeout ${TMO:-2400} ./check $p --tier ${TIER:-quick} > $out/$p.$s.log 2>&1
   rc=$?
-  echo "seed=$s $p exit=$rc $(grep -c '^VIOLATION' $out/$p.$s.log) violations; $(grep "$p quick:" $out/$p.$s.log | cut -c1-160)"
+  echo "seed=$s $p exit=$rc $(grep -c '^VIOLATION' $out/$p.$s.log) violations; $(grep "$p ${TIER:-quick}:" $out/$p.$s.log | cut -c1-160)"
   grep "oracle=\|KNOWN-FINDING" $out/$p.$s.log | cut -c1-420
 done; done
 echo "logs and replays in $out"
